@@ -201,3 +201,52 @@ class _L:
 
 def structs_eq(a, b):
     return all(map_eq(_L(a[k]), _L(b[k])) for k in a)
+
+
+# ------------------------------------------------------------------------------- fixtures
+def fixture(eng, params, prefixes_without_delim=True):
+    """Symbolic strict converter: records of params['shape'], delimiter ':' or symbolic."""
+    recs = mk_recs(eng, params["shape"])
+    assume_strict(eng, recs)
+    delim = get_delim(eng, params.get("symdelim", False), recs, no_delim_in_prefixes=False)
+    if prefixes_without_delim:
+        eng.assume(And([z3.Not(z3.Contains(_s(p), _s(delim))) for p in all_p(recs)]))
+    c = build(eng, recs, delim)
+    return recs, delim, c
+
+
+def first_occurrence(P, d):
+    """d does not occur in P ++ d before the final position, i.e. P ++ d ++ I splits at this d."""
+    P, d = _s(P), _s(d)
+    if z3.is_string_value(d) and len(d.as_string()) == 1:
+        return z3.Not(z3.Contains(P, d))
+    n = z3.Length(d)
+    return z3.Not(z3.Contains(z3.Concat(P, z3.SubString(d, 0, n - 1)), d))
+
+
+def mk_curie(eng, delim, tag=""):
+    """A CURIE string P ++ delim ++ I that splits exactly at this delimiter occurrence."""
+    P, I = eng.var(f"{tag}P"), eng.var(f"{tag}I")
+    eng.assume(first_occurrence(P, delim))
+    return P + delim + I, P, I
+
+
+def shape_jobs(fn_shapes, tier, group_expect=None, budget=300):
+    """helper: [(fn, shape, symdelim, tiers, extra)] -> job dicts"""
+    out = []
+    for item in fn_shapes:
+        fn, shape, symdelim, tiers = item[:4]
+        extra = item[4] if len(item) > 4 else {}
+        if tier not in tiers:
+            continue
+        params = dict(shape=shape, symdelim=symdelim)
+        params.update(extra.get("params", {}))
+        tagx = "".join(f":{k}={v}" for k, v in extra.get("params", {}).items())
+        out.append(dict(name=f"{fn}:{shape}:{'symdelim' if symdelim else 'colon'}{tagx}", fn=fn, params=params,
+                        budget_s=extra.get("budget", budget), shard_depth=extra.get("shard"), group=fn,
+                        expect_outcomes=(group_expect or {}).get(fn, [])))
+    return out
+
+
+Q = ("quick", "thorough")
+T = ("thorough",)
